@@ -457,6 +457,19 @@ def two(x=None, y=None):
   return _r.rec('two', locals())
 
 
+def ret_point(x=None, y=None) -> 'Point':
+  return _r.rec('ret_point', locals())
+
+
+def ret_int(x=None, y=None) -> int:
+  return _r.rec('ret_int', locals())
+
+
+def ret_color(x=None, y=None) -> Color:
+  """A return annotation that is a class, but none of the builtin ones."""
+  return _r.rec('ret_color', locals())
+
+
 def three(a=None, b=None, c=None):
   return _r.rec('three', locals())
 
